@@ -233,6 +233,38 @@ class Models:
             return z3.simplify(parts[0])
         return z3.simplify(z3.Concat(*parts))
 
+    def key_from_term(self, ex, k, ksh):
+        """inverse of key_term: the structured key value whose flattening is the bit-vector `k`"""
+        sorts = self.leaf_sorts(ksh)
+        sizes = [8 if s_ == z3.BoolSort() else s_.size() for s_ in sorts]
+        pos = sum(sizes)
+        leaves = []
+        for s_, sz in zip(sorts, sizes):
+            part = z3.Extract(pos - 1, pos - sz, k) if sum(sizes) > sz else k
+            leaves.append(part != z3.BitVecVal(0, sz) if s_ == z3.BoolSort() else part)
+            pos -= sz
+        return self.unflatten(ex, iter(leaves), ksh, 'key')
+
+    def retain_facts(self, ex, k):
+        """`HashMap::retain` on an array-backed map is lazy: the new `present` array is a fresh array, and what it holds at
+        a key is pinned down when that key is looked at - present'[k] = present[k] and predicate(k, value[k])"""
+        done = ex.env.setdefault('retain_done', set())
+        for i, rec in enumerate(ex.env.get('retained', [])):
+            if rec['new'].sort().domain() != k.sort():
+                continue
+            tag = (i, k.sexpr())
+            if tag in done:
+                continue
+            done.add(tag)
+            m0 = rec['base']
+            kval = self.key_from_term(ex, k, m0.ksh)
+            vval = self.unflatten(ex, iter([z3.Select(a_, k) for a_ in m0.leaves]), m0.vsh, 'slot')
+            vcell = Cell(vval)
+            keep = ex.call_value(rec['closure'], [Ref(Cell(kval), ()), Ref(vcell, ())])
+            if vcell.v is not vval:
+                raise Inconclusive('HashMap::retain predicate writes to the value')
+            ex.add(z3.Select(rec['new'], k) == z3.And(z3.Select(m0.present, k), keep))
+
     def key_sort(self, ksh):
         n = 0
         for s in self.leaf_sorts(ksh):
@@ -958,6 +990,59 @@ def register_core(M):
         ex.env.setdefault('now_calls', []).append(t)
         return t
 
+    def _scalar(ex, v):
+        v = ex.materialize(v)
+        for _ in range(3):
+            if isinstance(v, Ref):
+                v = ex.materialize(ex.read_path(v.cell, v.path))
+        return v
+
+    # Instant / Duration arithmetic on the 64-bit nanosecond abstraction (instants and durations of a run are far from 2^64:
+    # `Instant + Duration` does not wrap in the model's value range, std panics on overflow)
+    @reg('Add::add', 'Sub::sub')
+    def _(ex, info, a, dty):
+        st = info.get('self_ty') or ''
+        if not (st.endswith('Instant') or st.endswith('Duration')):
+            return M.uninterpreted(ex, info, a, dty)
+        x, y = ex.materialize(a[0]), ex.materialize(a[1])
+        if not (z3.is_bv(x) and z3.is_bv(y)):
+            return M.uninterpreted(ex, info, a, dty)
+        if info['method'] == 'add':
+            # assumption (stated in DESIGN.md): no overflow - a run's instants and configured delays are far from 2^64 ns
+            ex.add(z3.UGE(x + y, x))
+            return x + y
+        if ex.branch(z3.ULT(x, y)):
+            if st.endswith('Duration'):
+                raise PathEnd('panic', 'overflow when subtracting durations')
+            return bv(0)                      # Instant - Instant saturates (std since 1.60)
+        return x - y
+
+    @reg('Instant::saturating_duration_since', 'Instant::duration_since')
+    def _(ex, info, a, dty):
+        x, y = _scalar(ex, a[0]), _scalar(ex, a[1])
+        return z3.If(z3.UGT(x, y), x - y, bv(0))
+
+    @reg('Instant::checked_duration_since')
+    def _(ex, info, a, dty):
+        x, y = _scalar(ex, a[0]), _scalar(ex, a[1])
+        if ex.branch(z3.UGE(x, y)):
+            return M.some(dty, x - y)
+        return M.none(dty)
+
+    @reg('Instant::checked_add', 'Duration::checked_add')
+    def _(ex, info, a, dty):
+        x, y = _scalar(ex, a[0]), _scalar(ex, a[1])
+        if ex.branch(z3.ULT(x + y, x)):
+            return M.none(dty)
+        return M.some(dty, x + y)
+
+    @reg('Duration::is_zero')
+    def _(ex, info, a, dty):
+        x = ex.materialize(a[0])
+        if isinstance(x, Ref):
+            x = ex.materialize(ex.read_path(x.cell, x.path))
+        return x == bv(0)
+
     @reg('<impl>::checked_sub')
     def _(ex, info, a, dty):
         x, y = a
@@ -1043,6 +1128,7 @@ def register_core(M):
         if m.kind == 'assoc':
             return M.assoc_get(ex, cell, path, m, M.load(ex, a[1]), dty)
         k = M.key_term(ex, M.load(ex, a[1]), m.ksh)
+        M.retain_facts(ex, k)
         ex.write_path(cell, path, m)
         d = z3.If(z3.Select(m.present, k), bv(1), bv(0))
         return Adt(dty, {(1, 0): Ref(cell, path + (('slot', k),))}, z3.simplify(d), None)
@@ -1053,7 +1139,9 @@ def register_core(M):
         if m.kind == 'assoc':
             o = M.assoc_get(ex, cell, path, m, M.load(ex, a[1]), 'Option<?>')
             return M.discr(ex, o) == bv(1)
-        return z3.Select(m.present, M.key_term(ex, M.load(ex, a[1]), m.ksh))
+        k = M.key_term(ex, M.load(ex, a[1]), m.ksh)
+        M.retain_facts(ex, k)
+        return z3.Select(m.present, k)
 
     @reg('HashMap::insert')
     def _(ex, info, a, dty):
@@ -1061,6 +1149,7 @@ def register_core(M):
         if m.kind == 'assoc':
             return M.assoc_insert(ex, cell, path, m, a[1], a[2], dty)
         k = M.key_term(ex, a[1], m.ksh)
+        M.retain_facts(ex, k)
         old = M.unflatten(ex, iter([z3.Select(x, k) for x in m.leaves]), m.vsh, 'old')
         d = z3.simplify(z3.If(z3.Select(m.present, k), bv(1), bv(0)))
         vals = M.flatten(ex, a[2], m.vsh)
@@ -1069,12 +1158,30 @@ def register_core(M):
         ex.write_path(cell, path, m2)
         return Adt(dty, {(1, 0): old}, d, None)
 
+    @reg('HashMap::retain')
+    def _(ex, info, a, dty):
+        cell, path, m = M._map_at(ex, a[0])
+        if m.kind == 'assoc':
+            kept = []
+            for (k_, v_) in m.entries:
+                vc = Cell(v_)
+                if ex.branch(ex.call_value(a[1], [Ref(Cell(k_), ()), Ref(vc, ())])):
+                    kept.append((k_, vc.v))
+            ex.write_path(cell, path, ex.read_path(cell, path).set(entries=tuple(kept)))
+            return UNIT
+        n = len(ex.env.setdefault('retained', []))
+        new = z3.Const('%s.retained%d' % (m.name, n), m.present.sort())
+        ex.env['retained'].append({'new': new, 'base': m, 'closure': a[1]})
+        ex.write_path(cell, path, m.set(present=new))
+        return UNIT
+
     @reg('HashMap::remove')
     def _(ex, info, a, dty):
         cell, path, m = M._map_at(ex, a[0])
         if m.kind == 'assoc':
             return M.assoc_remove(ex, cell, path, m, M.load(ex, a[1]), dty)
         k = M.key_term(ex, M.load(ex, a[1]), m.ksh)
+        M.retain_facts(ex, k)
         old = M.unflatten(ex, iter([z3.Select(x, k) for x in m.leaves]), m.vsh, 'old')
         d = z3.simplify(z3.If(z3.Select(m.present, k), bv(1), bv(0)))
         ex.write_path(cell, path, m.set(present=z3.Store(m.present, k, z3.BoolVal(False))))
